@@ -131,8 +131,9 @@ def canon_val(v, T):
 
 def env_canon(env, T):
     out = []
-    for k in sorted(env._variables):
-        c = canon_val(env._variables[k], T)
+    b_ = core.env_bindings(env)
+    for k in sorted(b_):
+        c = canon_val(b_[k], T)
         if c is not None:
             out.append("%s=%s" % (k, c))
     return ",".join(out)
@@ -142,8 +143,7 @@ def run_real(R, hist_inputs, envs):
     """hist_inputs: list of (sid, text). Returns list of result strings."""
     res = []
     for sid, text in hist_inputs:
-        before = R.new_env()
-        before._variables = dict(envs[sid]._variables)
+        before = core.clone_env(envs[sid])
         r = R.execute(text, env=envs[sid])
         if r["escaped"]:
             res.append("escaped:" + r["escaped"])
@@ -294,7 +294,7 @@ def _check_main(ctx):
         env = R.new_env()
         r = R.execute(text, env=env)
         ctx.count("unassigned-read:" + text, bucket="unassigned reads")
-        left = [nm for nm in names_unbound if nm in env._variables]
+        left = [nm for nm in names_unbound if core.env_bound(env, nm)]
         if r["escaped"] or r["status"] != 1 or left:
             ctx.violation("sess-unassigned-read:" + text, text, "status 1 (y was never assigned)" + (", %s not bound" % names_unbound if names_unbound else ""),
                           "status %s %s out=%r bound afterwards: %s" % (r["status"], r["escaped"] or "", r["out"].strip()[:60], left),
